@@ -60,6 +60,8 @@ SendActs(S) == UNION { IF S.ch[c].cur.ns > MaxSeq THEN {} ELSE
 
 Hts(S, c, adv) == IF adv THEN 0..(S.ch[Cp(c)].h + 1) ELSE S.ch[c].cons
 
+HonestV2Ack(P) == [i \in DOMAIN P.data |-> AckOfPayload(P.data[i])]
+
 Proto(P, name) == IF P.proto = "v1" THEN name \o "V1" ELSE name \o "V2"
 
 RecvActs(S, adv) == UNION { UNION {
@@ -85,7 +87,7 @@ CloseActs(S, adv) == IF ~V1 THEN {} ELSE
 Received(S, c) == { S.ch[c].log[i].p : i \in { j \in DOMAIN S.ch[c].log : S.ch[c].log[j].ev = "recv" } }
 WriteAckActs(S) == UNION { UNION {
       With(With(Base(c, Proto(P, "WriteAck")), "pkt", {P}), "ack",
-           IF P.proto = "v1" THEN {<<"ok">>, <<"err">>} ELSE {<<"ok">>, <<"SENTINEL">>})
+           IF P.proto = "v1" THEN {<<"ok">>, <<"err">>} ELSE {<<"ok">>, <<"SENTINEL">>, HonestV2Ack(P)})
     : P \in { Q \in Received(S, c) : \E i \in DOMAIN Q.data : OutcomeOf(Q.data[i]) = "async" } } : c \in Chains }
 
 
@@ -107,7 +109,8 @@ Mutants(P) ==
 
 
 BadAcks(P) == IF P.proto = "v1" THEN { <<"ok">>, <<"err">>, <<"bad">> }
-              ELSE { <<"ok">>, <<"SENTINEL">>, <<"ok","ok">>, <<"bad">>, [i \in DOMAIN P.data |-> "ok"] }
+              ELSE { <<"ok">>, <<"SENTINEL">>, <<"ok","ok">>, <<"bad">>, [i \in DOMAIN P.data |-> "ok"], HonestV2Ack(P),
+                     [i \in DOMAIN P.data |-> HonestV2Ack(P)[Len(P.data) + 1 - i]] }     \* the honest list reversed
 
 MutRecvActs(S) == UNION { UNION { UNION {     \* forged packets with real proofs of the original
            With(With(Base(c, Proto(M, "Recv")), "pkt", {M}), "ph", S.ch[c].cons)
